@@ -74,6 +74,20 @@ def check(ctx):
             if tg:
                 edges.append((g, n, tg[0]))
     ctx.need(any(g is to_tree for g, _, _ in edges), "the recursion of Config.to_tree into sub-configurations vanished")
+    # the entry points above to_tree (dumps, save, ...): whoever takes a mask hands exactly that mask on -- `mask or None` turns the
+    # (legal) empty mask into "no mask" and renders every sensitive value in clear
+    for g in an.fns():
+        if g in an.reachable_fns([to_tree]) or mask_param(g) is None:
+            continue
+        for n in an.cfg(g).nodes:
+            if n.kind != "call":
+                continue
+            for t in an.targets(g, n):
+                if t.kind == "fn" and t.fn is not None and t.fn is not g and mask_param(t.fn) is not None:
+                    ok_ = forwards_mask(an, g, n, t.fn)
+                    ctx.ob("forward.entry-point", g, n.ast, ok_, "hands on the caller's sensitive_mask unchanged" if ok_ else
+                           "%s does not hand its sensitive_mask on unchanged to %s: a mask the caller gave (the empty string included) can be "
+                           "replaced or dropped, sensitive values are rendered in clear" % (g.qualname, t.fn.qualname), node=n)
     for g, n, callee in edges:
         if forwards_mask(an, g, n, callee):
             ctx.ob("forward", g, n.ast, True, "hands on the caller's sensitive_mask", node=n)
